@@ -27,7 +27,7 @@ def build_libdrv(pkg="libdrv"):
         raise C.ToolError(f"cargo build of harness/{pkg} failed:\n" + p.stdout[-3000:])
 
 
-def libdrv_batch(reqs, wd, tag, procs=16, pkg="libdrv"):
+def libdrv_batch(reqs, wd, tag, procs=16, pkg="libdrv", env_extra=None, cwd=None):
     """Runs requests through libdrv in parallel processes; returns responses in order."""
     exe = os.path.join(C.VERIF, "harness", "target", "release", pkg)
     if not reqs:
@@ -42,7 +42,8 @@ def libdrv_batch(reqs, wd, tag, procs=16, pkg="libdrv"):
             for r in parts[k]:
                 f.write(json.dumps(r) + "\n")
         with open(inp) as fi, open(outp, "w") as fo:
-            p = subprocess.run([exe], stdin=fi, stdout=fo, stderr=subprocess.DEVNULL, env=dict(os.environ, RUST_BACKTRACE="0"))
+            p = subprocess.run([exe], stdin=fi, stdout=fo, stderr=subprocess.DEVNULL, cwd=cwd,
+                               env=dict(os.environ, RUST_BACKTRACE="0", **(env_extra or {})))
         res = []
         with open(outp) as f:
             for line in f:
